@@ -115,8 +115,12 @@ func C06_paths() {
 		return
 	}
 	k := sym.Choice("failAt", len(calls))
-	group := 2 * sym.Choice("group", 2) // 0: plain error, 2: Errors group of 2 members
-	plan.at, plan.count, plan.group = k, 0, group
+	gk := sym.Choice("group", 3) // 0: plain error, 1: Errors group of 2 members, 2: such a group wrapped in another error
+	group := 0
+	if gk > 0 {
+		group = 2
+	}
+	plan.at, plan.count, plan.group, plan.wrap = k, 0, group, gk == 2
 	res := kitRoot(q).ResolveString(doc, "", nil)
 	sym.Observe("res", res)
 	inv := calls[k]
